@@ -29,6 +29,55 @@ class Undecided(Exception):
     pass
 
 
+def reflection_stub(eng) -> str:
+    """A typed stand-in for the generated reflection.h, declared (never defined) from reflection.fcp as the checker's own lark
+    grammar reads it: one class per struct with `Get<PascalField>()` returning the static wrapper of the field's type and a
+    static Decode.  Field names are converted the way the C++ generator's to_pascal_case does (words split at '_', capitalised)."""
+    from ..front_lark import Grammar, mini_schema
+    try:
+        recs = mini_schema(Grammar(eng.prog), eng.read("src", "fcp", "reflection", "reflection.fcp"))
+    except Exception:
+        return REFLECTION_STUB
+    recs = {k: v for k, v in recs.items() if not k.startswith("#")}
+
+    def pascal(n: str) -> str:
+        return "".join(w[:1].upper() + w[1:] for w in n.split("_"))
+
+    def carrier(bits: int, signed: bool) -> str:
+        w = 8 if bits <= 8 else 16 if bits <= 16 else 32 if bits <= 32 else 64
+        return "std::%sint%d_t" % ("" if signed else "u", w)
+
+    def cpp(ft) -> str:
+        k = ft[0]
+        if k == "u":
+            return "Unsigned<%s, %d>" % (carrier(ft[1], False), ft[1])
+        if k == "i":
+            return "Signed<%s, %d>" % (carrier(ft[1], True), ft[1])
+        if k == "f32":
+            return "Float"
+        if k == "f64":
+            return "Double"
+        if k == "str":
+            return "String"
+        if k == "array":
+            return "Array<%s, %d>" % (cpp(ft[1]), ft[2])
+        if k == "dyn":
+            return "DynamicArray<%s>" % cpp(ft[1])
+        if k == "opt":
+            return "Optional<%s>" % cpp(ft[1])
+        return "fcp::reflection::%s" % ft[1]
+    out = [REFLECTION_STUB, "namespace fcp { namespace reflection {\n"]
+    for n in recs:
+        out.append("class %s;\n" % n)
+    for n, fields in recs.items():
+        out.append("class %s { public:\n  static %s Decode(Buffer& buffer, Endianess e = Endianess::Little);\n  void Encode(Buffer& buffer, Endianess e = Endianess::Little) const;\n  json DecodeJson() const;\n  bool operator==(const %s&) const;\n" % (n, n, n))
+        for fname, fid, ft in fields:
+            out.append("  %s Get%s() const;\n" % (cpp(ft), pascal(fname)))
+        out.append("};\n")
+    out.append("} }\n")
+    return "".join(out)
+
+
 def strip(x: Optional[CNode]) -> Optional[CNode]:
     while x is not None and x.kind in ("ImplicitCastExpr", "ParenExpr", "ExprWithCleanups", "MaterializeTemporaryExpr", "CXXBindTemporaryExpr", "CXXFunctionalCastExpr", "CStyleCastExpr", "CXXStaticCastExpr", "ConstantExpr") and x.inner:
         x = x.inner[-1]
@@ -54,7 +103,7 @@ class DynCodec:
         inst = re.sub(r"\{\{.*?\}\}", "0", src, flags=re.S)
         hdir = eng.path("plugins", "fcp_cpp", "fcp_cpp")
         decls = cxx_ast(HDR_INCLUDES + '#include "dynamic.h"\n', [hdir], filt="fcp::dynamic::DynamicSchema", allow_errors=True,
-                        extra_files={"dynamic.h": inst, "reflection.h": REFLECTION_STUB})
+                        extra_files={"dynamic.h": inst, "reflection.h": reflection_stub(eng)})
         self.errors = list(getattr(cxx_ast, "last_errors", []))
         cls = [d for d in decls if d.kind == "CXXRecordDecl" and d.get("name") == "DynamicSchema" and d.inner]
         if not cls:
